@@ -1,11 +1,394 @@
-import GqlgenVerif.Model.Rewrite
-import GqlgenVerif.Model.RewriteSpec
-/-! # C19 — regeneration never loses user-written resolver code (theorems; work in progress) -/
+import GqlgenVerif.Lemmas.Rewrite
+/-!
+# C19 — regeneration never loses user-written resolver code
+
+All theorems are about `Model/Rewrite.lean` (`regenerate`, `step`, `iterate`) and quantify over **every**
+package (any files, any declarations with any source text), every schema and every history of
+regenerations, in both layouts. The facts taken from the source on every run
+(`Gen/RewriteOffsets.lean`: the slice offsets of `GetMethodBody`, the skip conditions / separator / trim of
+`RemainingSource`, the shape of the template's WARNING block, the alias rule of `Import.String`) enter the
+proofs by unfolding, so an edit of those lines changes the statement being proved.
+
+Go's parser / printer / type checker are not modelled: declarations come with the source text go/parser
+delimits; "compiles" is proved only structurally (`add_only_keeps_everything`).
+
+Partial statements and why:
+* `imports_kept_partial` — the full statement (every user import survives under its own name) is false for
+  imports that clash with the template's own imports: `import_alias_on_template_path_witness`,
+  `import_name_clash_witness` (known findings F19b, F19c). `import_alias_suffix_witness` shows what the
+  `fix:` d8050c4 repaired.
+* `doc_kept` is stated on `Doc.Text()`; a leading backslash is stripped: `doc_backslash_witness` (F19e).
+  Directive lines are dropped inside go/ast's `Text()` itself, outside the model (F19d, replayed by the harness).
+* `copied_is_regenerated` says what is marked copied; for the accessor and the struct type only the
+  template text is written, user changes to them are lost: `boilerplate_overwritten_witness` (F19f).
+* `valid_go_output` is full strength since `fix:` 960850a; `valid_go_output_block_partial` +
+  `block_comment_witness` are the statement and the counterexample for the template as it was.
+-/
 namespace GqlgenVerif.Props.C19
 open GqlgenVerif.Rewrite GqlgenVerif.Gen.RewriteOffsets
 
+-- ------------------------------------------------------------------ demo data for the non-vacuity examples
+
+def dImport : Decl :=
+  { isFunc := false, tok := "IMPORT", recv := "", name := "", doc := [], specDoc := [], namedV := "", namedE := "",
+    hdr := "import (\n\t\"context\"\n\tstr \"strings\"\n)".toList, inner := [], hasBody := false }
+def dTodos : Decl :=
+  { isFunc := true, tok := "", recv := "queryResolver", name := "Todos", doc := "Todos lists.\n".toList,
+    specDoc := "Todos lists.".toList, namedV := "res", namedE := "err",
+    hdr := "func (r *queryResolver) Todos(ctx context.Context) (res []*Todo, err error) ".toList,
+    inner := "\n\tpanic(str.ToUpper(\"x {\"))\n".toList, hasBody := true, canon := "panic(str.ToUpper(\"x {\"))".toList }
+def dHelper : Decl :=
+  { isFunc := true, tok := "", recv := "", name := "helper", doc := [], specDoc := [], namedV := "", namedE := "",
+    hdr := "func helper() int ".toList, inner := " return 1 ".toList, hasBody := true }
+def f0 : File :=
+  { name := "a.resolvers.go", imports := [⟨"", "context", "context"⟩, ⟨"str", "strings", "strings"⟩],
+    decls := [dImport, dTodos, dHelper] }
+def p0 : Pkg := [f0]
+def sch0 : Schema := [{ name := "Query", file := "a.resolvers.go", fields := [⟨"Todos", "todos", "a.resolvers.go", true⟩] }]
+def oQuery : Obj := { name := "Query", file := "a.resolvers.go", fields := [⟨"Todos", "todos", "a.resolvers.go", true⟩] }
+def fTodos : Field := ⟨"Todos", "todos", "a.resolvers.go", true⟩
+def cfgF : Cfg := { layout := .follow }
+def cfgS : Cfg := { layout := .single }
+def keptTodos : Kept := ⟨"panic(str.ToUpper(\"x {\"))".toList, "res", "err", "Todos lists.".toList⟩
+
+-- ------------------------------------------------------------------ 1. bodies
+
 /-- `GetMethodBody` returns exactly the text between the braces (offsets regenerated from the source). -/
-theorem getMethodBody_inner (d : Decl) : getMethodBody d = d.inner := by
-  simp [getMethodBody, Decl.body, bodyStartOff, bodyEndOff]
+theorem getMethodBody_is_inner (d : Decl) : getMethodBody d = d.inner := getMethodBody_inner d
+
+/-- **body_verbatim.** If the field still exists (`f` is a resolver field of an object of the new schema) and the
+package declares its method (`d` is what `GetPrevDecl` finds) with a non-empty body, the regenerated file the
+layout assigns to the field contains the method with exactly the old body up to `strings.TrimSpace`; read
+back from the written file, the body trims to the same text. -/
+theorem body_verbatim (cfg : Cfg) (p : Pkg) (sch : Schema) (o : Obj) (f : Field) (k : Key) (d : Decl)
+    (ho : o ∈ sch) (hf : f ∈ o.resolverFields)
+    (hm : firstMatch p (structName cfg o) f.goName = some (k, d)) (hne : trim d.inner ≠ []) :
+    ∃ nf ∈ regenerate cfg p sch, nf.name = targetFile cfg f.file ∧
+      ∃ m ∈ nf.methods, m.recv = structName cfg o ∧ m.name = f.goName ∧ m.impl = trim d.inner ∧
+        trim (getMethodBody m.toDecl) = trim d.inner := by
+  obtain ⟨nf, hnf, hname, hmem⟩ := method_in_output cfg p sch o f ho hf
+  obtain ⟨h1, h2, h3, _⟩ := mkMethod_of_match cfg p o f k d hm hne
+  refine ⟨nf, hnf, hname, _, hmem, h1, h2, h3, ?_⟩
+  rw [getMethodBody_inner]
+  show trim ('\n' :: '\t' :: ((mkMethod cfg p o f).impl ++ ['\n'])) = trim d.inner
+  rw [h3]
+  have := trim_pad ['\n', '\t'] (trim d.inner) ['\n'] (by simp [isSpace_nl, isSpace_tab]) (by simp [isSpace_nl])
+    (noLead_trim _) (noTrail_trim _)
+  simpa using this
+
+example : oQuery ∈ sch0 ∧ fTodos ∈ oQuery.resolverFields ∧
+    firstMatch p0 (structName cfgF oQuery) fTodos.goName = some ((0, 1), dTodos) ∧ trim dTodos.inner ≠ [] := by decide
+
+/-- **named_results_and_doc_kept.** Same situation: the regenerated method has the old named results, and the
+old doc comment (`Doc.Text()` without leading backslashes, trimmed) when there was one. -/
+theorem named_results_and_doc_kept (cfg : Cfg) (p : Pkg) (sch : Schema) (o : Obj) (f : Field) (k : Key) (d : Decl)
+    (ho : o ∈ sch) (hf : f ∈ o.resolverFields)
+    (hm : firstMatch p (structName cfg o) f.goName = some (k, d)) (hne : trim d.inner ≠ []) :
+    ∃ nf ∈ regenerate cfg p sch, ∃ m ∈ nf.methods, m.recv = structName cfg o ∧ m.name = f.goName ∧
+      m.namedV = d.namedV ∧ m.namedE = d.namedE ∧
+      (trim (trimBackslashes d.doc) ≠ [] → m.doc = trim (trimBackslashes d.doc)) := by
+  obtain ⟨nf, hnf, _, hmem⟩ := method_in_output cfg p sch o f ho hf
+  obtain ⟨h1, h2, _, h4, h5, h6⟩ := mkMethod_of_match cfg p o f k d hm hne
+  exact ⟨nf, hnf, _, hmem, h1, h2, h4, h5, h6⟩
+
+example : trim (trimBackslashes dTodos.doc) ≠ [] := by decide
+
+/-- **doc_kept.** … and when the doc text does not start with a backslash, that is the doc text itself. -/
+theorem doc_kept (cfg : Cfg) (p : Pkg) (sch : Schema) (o : Obj) (f : Field) (k : Key) (d : Decl)
+    (ho : o ∈ sch) (hf : f ∈ o.resolverFields)
+    (hm : firstMatch p (structName cfg o) f.goName = some (k, d)) (hne : trim d.inner ≠ [])
+    (hdoc : trim d.doc ≠ []) (hbs : d.doc.head? ≠ some '\\') :
+    ∃ nf ∈ regenerate cfg p sch, ∃ m ∈ nf.methods, m.recv = structName cfg o ∧ m.name = f.goName ∧ m.doc = trim d.doc := by
+  obtain ⟨nf, hnf, m, hm', h1, h2, _, _, h5⟩ := named_results_and_doc_kept cfg p sch o f k d ho hf hm hne
+  rw [trimBackslashes_of_head hbs] at h5
+  exact ⟨nf, hnf, m, hm', h1, h2, h5 hdoc⟩
+
+example : trim dTodos.doc ≠ [] ∧ dTodos.doc.head? ≠ some '\\' := by decide
+
+/-- F19e: a doc comment that starts with a backslash is not kept verbatim. -/
+theorem doc_backslash_witness :
+    let d := { dTodos with doc := "\\brief Todos lists.\n".toList }
+    (mkMethod cfgF [{ f0 with decls := [dImport, d, dHelper] }] oQuery fTodos).doc = "brief Todos lists.".toList := by decide
+
+/-- **kept forever.** However often regeneration is repeated, over whatever schemas — as long as each of them
+still has the field — every declaration of the method in the package keeps carrying the same trimmed body,
+named results and doc text, and the method stays declared. (`Agree` speaks about *all* declarations of
+`s.m`, so no uniqueness assumption is needed; for a package that compiles there is exactly one.) -/
+theorem body_doc_results_kept_forever (cfg : Cfg) (s m : String) (kp : Kept)
+    (hs : s ≠ cfg.rtype) (hne : kp.body ≠ []) (hdne : kp.doc ≠ []) (hbs : kp.doc.head? ≠ some '\\')
+    (schs : List Schema) (p : Pkg) (hag : Agree p s m kp) (hpr : Present p s m)
+    (hreq : ∀ sch ∈ schs, Requested cfg sch s m) :
+    Agree (iterate cfg p schs) s m kp ∧ Present (iterate cfg p schs) s m :=
+  agree_iterate cfg s m kp hs hne hdne hbs schs p hag hpr hreq
+
+example : "queryResolver" ≠ cfgF.rtype ∧ keptTodos.body ≠ [] ∧ keptTodos.doc ≠ [] ∧ keptTodos.doc.head? ≠ some '\\' := by decide
+example : Agree p0 "queryResolver" "Todos" keptTodos := by
+  intro kd hkd hm
+  have : kd ∈ [((0, 0), dImport), ((0, 1), dTodos), ((0, 2), dHelper)] := hkd
+  simp only [List.mem_cons, List.not_mem_nil, or_false] at this
+  rcases this with rfl | rfl | rfl
+  · simp [isMethod, dImport] at hm
+  · decide
+  · simp [isMethod, dHelper] at hm
+example : Present p0 "queryResolver" "Todos" := ⟨((0, 1), dTodos), by decide, by decide⟩
+example : Requested cfgF sch0 "queryResolver" "Todos" := ⟨oQuery, by decide, fTodos, by decide, by decide, by decide⟩
+
+/-- One run also leaves the invariant intact when the field is *not* requested any more (the method then
+only survives as leftover text); this is the single-step form. -/
+theorem kept_one_step (cfg : Cfg) (p : Pkg) (sch : Schema) (s m : String) (kp : Kept)
+    (hs : s ≠ cfg.rtype) (hne : kp.body ≠ []) (hdne : kp.doc ≠ []) (hbs : kp.doc.head? ≠ some '\\')
+    (hag : Agree p s m kp) (hpr : Present p s m) :
+    Agree (step cfg p sch) s m kp ∧ (Requested cfg sch s m → Present (step cfg p sch) s m) :=
+  agree_step cfg p sch s m kp hs hne hdne hbs hag hpr
+
+/-- **idempotent_methods.** Regenerating twice writes exactly the methods regenerating once writes: same
+receiver, name, doc comment, named results and body — for a method with or without a previous
+implementation, in both layouts. Hypotheses: all declarations of the method in the package read alike
+(`hagree`; trivially so when there is one, as in any package that compiles), the schema does not map two
+differently named fields to this same Go method (`huniq`), the Go field name is an identifier (`hgo`), and
+the doc comment does not (still) start with a backslash (`hbs`, F19e).
+(`idempotent_when_nothing_left` of the design: the method half is this theorem — it needs no "nothing left"
+premise; that the *leftover* of the second run is empty is sampled by the correspondence run, where the
+model predicts the leftover text of every repeated regeneration exactly.) -/
+theorem idempotent_methods (cfg : Cfg) (p : Pkg) (sch : Schema) (o : Obj) (f : Field)
+    (ho : o ∈ sch) (hf : f ∈ o.resolverFields) (hs : structName cfg o ≠ cfg.rtype)
+    (hagree : ∀ kd ∈ allDecls p, ∀ kd' ∈ allDecls p, isMethod (structName cfg o) f.goName kd.2 = true →
+      isMethod (structName cfg o) f.goName kd'.2 = true → content kd.2 = content kd'.2)
+    (huniq : ∀ o' ∈ sch, ∀ f' ∈ o'.resolverFields, structName cfg o' = structName cfg o → f'.goName = f.goName → f'.name = f.name)
+    (hgo : StartsWithLetter f.goName) (hbs : (mkMethod cfg p o f).doc.head? ≠ some '\\') :
+    SameOut (mkMethod cfg (step cfg p sch) o f) (mkMethod cfg p o f) :=
+  idempotent_methods_lemma cfg p sch o f ho hf hs hagree huniq hgo hbs
+
+example : structName cfgF oQuery ≠ cfgF.rtype ∧ StartsWithLetter fTodos.goName ∧
+    (mkMethod cfgF p0 oQuery fTodos).doc.head? ≠ some '\\' ∧
+    (∀ o' ∈ sch0, ∀ f' ∈ o'.resolverFields, structName cfgF o' = structName cfgF oQuery → f'.goName = fTodos.goName → f'.name = fTodos.name) :=
+  ⟨by decide, ⟨'T', "odos".toList, by decide, by decide, by decide⟩, by decide, by decide⟩
+example : ∀ kd ∈ allDecls p0, ∀ kd' ∈ allDecls p0, isMethod (structName cfgF oQuery) fTodos.goName kd.2 = true →
+    isMethod (structName cfgF oQuery) fTodos.goName kd'.2 = true → content kd.2 = content kd'.2 := by
+  intro kd hkd kd' hkd' hm hm'
+  have e : allDecls p0 = [((0, 0), dImport), ((0, 1), dTodos), ((0, 2), dHelper)] := by decide
+  rw [e] at hkd hkd'
+  simp only [List.mem_cons, List.not_mem_nil, or_false] at hkd hkd'
+  have h1 : isMethod (structName cfgF oQuery) fTodos.goName dImport = false := by decide
+  have h2 : isMethod (structName cfgF oQuery) fTodos.goName dHelper = false := by decide
+  rcases hkd with rfl | rfl | rfl <;> rcases hkd' with rfl | rfl | rfl <;> simp_all
+
+/-- **Impl ⊨ Spec (methods).** The executable Spec the check evaluates on the implementation's output
+(`Spec.methodViolations`: body, named results, doc of every resolver method whose field still exists) finds
+nothing on the model's own output, for every package and schema whose requested methods sit in gofmt-ed
+files (`Formatted`) and have doc comments that `Doc.Text()` reads faithfully (`DocPlain`). -/
+theorem spec_methods_hold_on_model (cfg : Cfg) (p : Pkg) (sch : Schema)
+    (hdoc : ∀ r ∈ resolverReqs cfg sch, ∀ k d, firstMatch p r.recv r.name = some (k, d) → DocPlain d ∧ Formatted d) :
+    Spec.methodViolations cfg p sch (step cfg p sch) = [] := spec_methods_hold cfg p sch hdoc
+
+example : ∀ r ∈ resolverReqs cfgF sch0, ∀ k d, firstMatch p0 r.recv r.name = some (k, d) → DocPlain d ∧ Formatted d := by
+  intro r hr k d h
+  have : r = ⟨"queryResolver", "Todos"⟩ := by
+    have : r ∈ [(⟨"queryResolver", "Todos"⟩ : Req)] := hr
+    simpa using this
+  subst this
+  have : firstMatch p0 "queryResolver" "Todos" = some ((0, 1), dTodos) := by decide
+  rw [this] at h
+  obtain ⟨_, rfl⟩ := Prod.mk.inj (Option.some.inj h)
+  exact ⟨(by decide : dTodos.specDoc = trim (trimBackslashes dTodos.doc)), (by decide : dTodos.canon = trim dTodos.inner)⟩
+
+-- ------------------------------------------------------------------ 2. nothing is lost
+
+/-- **nothing_lost.** Every non-import declaration `d` (with its source text starting and ending in a
+non-space character, as go/parser delimits it) of a file that is rendered again is either marked copied or
+its full source text is inside the leftover text written to the WARNING block of that same file. -/
+theorem nothing_lost (cfg : Cfg) (p : Pkg) (sch : Schema) (nf : NewFile) (fi : Nat) (f : File) (j : Nat) (d : Decl)
+    (hnf : nf ∈ regenerate cfg p sch) (hfile : findFile p nf.name = some (fi, f)) (hd : f.decls[j]? = some d)
+    (hni : d.isImport = false) (hne : d.src ≠ []) (h1 : NoLeadSpace d.src) (h2 : NoTrailSpace d.src) :
+    (fi, j) ∈ copied cfg p sch ∨ hasInfix d.src nf.remaining = true := by
+  by_cases hc : (fi, j) ∈ copied cfg p sch
+  · exact Or.inl hc
+  · right
+    unfold regenerate at hnf
+    obtain ⟨name, _, rfl⟩ := List.mem_map.mp hnf
+    exact leftover_contains _ p name fi f j d hfile hd hni hne h1 h2 hc
+
+example : findFile p0 "a.resolvers.go" = some (0, f0) ∧ f0.decls[2]? = some dHelper ∧ dHelper.isImport = false ∧
+    dHelper.src ≠ [] ∧ (0, 2) ∉ copied cfgF p0 sch0 := by decide
+example : NoLeadSpace dHelper.src ∧ NoTrailSpace dHelper.src := by
+  constructor
+  · intro c r h
+    have : dHelper.src = 'f' :: "unc helper() int { return 1 }".toList := by decide
+    rw [this] at h; injection h with h _; subst h; decide
+  · intro c r h
+    have : dHelper.src = "func helper() int { return 1 ".toList ++ ['}'] := by decide
+    rw [this] at h
+    have := List.append_inj' h rfl
+    simp at this; rw [← this.2]; decide
+
+/-- **copied_is_regenerated.** What is marked copied is exactly: the first declaration of a method
+resolvergen asked for (a resolver method — re-emitted with its body by `body_verbatim` — or an object
+accessor `func (r *Resolver) Query()`), or a `type xResolver struct` declaration of an object with resolvers. -/
+theorem copied_is_regenerated (cfg : Cfg) (p : Pkg) (sch : Schema) (k : Key) (h : k ∈ copied cfg p sch) :
+    (∃ r ∈ reqs cfg sch, ∃ d, firstMatch p r.recv r.name = some (k, d)) ∨
+    (∃ n ∈ structNames cfg sch, ∃ d, (k, d) ∈ allDecls p ∧ isStructDecl n d = true) :=
+  copied_cases cfg p sch k h
+
+example : (0, 1) ∈ copied cfgF p0 sch0 := by decide
+
+/-- F19f: a user-modified struct type is marked copied, only the template text is written: the user's
+declaration is neither in the leftover text nor anywhere in the regenerated package. -/
+theorem boilerplate_overwritten_witness :
+    let d : Decl := { isFunc := false, tok := "TYPE", recv := "", name := "queryResolver", doc := [], specDoc := [],
+                      namedV := "", namedE := "", hdr := "type queryResolver struct {\n\t*Resolver\n\tcache int\n}".toList,
+                      inner := [], hasBody := false }
+    let p : Pkg := [{ f0 with decls := [dImport, dTodos, d] }]
+    (0, 2) ∈ copied cfgF p sch0 ∧
+    (∀ nf ∈ regenerate cfgF p sch0, hasInfix d.src nf.remaining = false) ∧
+    (∀ kd ∈ allDecls (step cfgF p sch0), kd.2.src ≠ d.src) := by decide
+
+/-- Files that are not rendered in this run stay exactly as they are. -/
+theorem other_files_untouched (cfg : Cfg) (p : Pkg) (sch : Schema) (g : File) (hg : g ∈ p)
+    (hn : g.name ∉ outNames cfg p sch) : g ∈ step cfg p sch := by
+  apply apply_preserve hg
+  intro y hy e
+  apply hn
+  unfold regenerate at hy
+  obtain ⟨name, hname, rfl⟩ := List.mem_map.mp hy
+  have : (mkFile cfg p sch name).name = name := rfl
+  rw [← e, this]; exact hname
+
+example : (⟨"resolver.go", [], []⟩ : File) ∈ p0 ++ [⟨"resolver.go", [], []⟩] ∧
+    "resolver.go" ∉ outNames cfgF (p0 ++ [⟨"resolver.go", [], []⟩]) sch0 := by decide
+
+/-- The leftover text is written out in full: inside the block comment, … -/
+theorem leftover_written_block (rem : Text) (h : rem ≠ []) : hasInfix rem (trailer .blockAlways rem) = true := by
+  rw [hasInfix_iff]
+  have : (rem == []) = false := by simpa using h
+  simp only [trailer, this, Bool.false_eq_true, if_false]
+  exact ⟨warningHeader ++ "/*\n\t".toList, "\n\t*/\n".toList, by simp⟩
+
+/-- … or, as `// ` lines, recoverable verbatim by removing that prefix from every line. -/
+theorem leftover_written_lines (rem : Text) : unprefixLines "// ".toList (prefixLines "// ".toList rem) = rem :=
+  unprefix_prefixLines _ _
+
+/-- what the template writes now is one of those two -/
+theorem leftover_written (rem : Text) (h : rem ≠ []) :
+    trailer trailerMode rem = warningHeader ++ "/*\n\t".toList ++ rem ++ "\n\t*/\n".toList ∨
+    trailer trailerMode rem = warningHeader ++ prefixLines "// ".toList rem ++ ['\n'] := by
+  have : (rem == []) = false := by simpa using h
+  simp only [trailer, trailerMode, this, Bool.false_eq_true, if_false]
+  split
+  · exact Or.inr rfl
+  · exact Or.inl rfl
+
+-- ------------------------------------------------------------------ 3. the regenerated file is valid Go (its tail)
+
+/-- **valid_go_output** (full strength). Whatever the leftover code is, the text the template writes after the
+last declaration is lexically valid Go: white space and complete comments only. -/
+theorem valid_go_output (rem : Text) : validTail (trailer trailerMode rem) = true := by
+  by_cases h : rem = []
+  · subst h; decide
+  · have h' : (rem == []) = false := by simpa using h
+    simp only [trailer, trailerMode, h', Bool.false_eq_true, if_false]
+    by_cases hb : hasInfix blockEnd rem = true
+    · rw [if_pos hb]; exact valid_trailer_line rem
+    · rw [if_neg hb]; exact valid_trailer_block rem (by simpa using hb)
+
+/-- The template as it was before `fix:` 960850a (`/* … */` always) is valid only under
+`NoBlockCommentEnd remaining`: -/
+theorem valid_go_output_block_partial (rem : Text) (h : hasInfix blockEnd rem = false) :
+    validTail (trailer .blockAlways rem) = true := by
+  by_cases h0 : rem = []
+  · subst h0; decide
+  · have h' : (rem == []) = false := by simpa using h0
+    simp only [trailer, h', Bool.false_eq_true, if_false]
+    exact valid_trailer_block rem h
+
+example : hasInfix blockEnd dHelper.src = false := by decide
+
+set_option maxRecDepth 100000 in
+/-- … and false without it (F19, fixed): a helper with a block comment, or a glob string. -/
+theorem block_comment_witness :
+    validTail (trailer .blockAlways "func h() int {\n\t/* c */\n\treturn 1\n}".toList) = false ∧
+    validTail (trailer .blockAlways "func g() ([]string, error) { return filepath.Glob(\"static/*/index.html\") }".toList) = false := by
+  decide
+
+-- ------------------------------------------------------------------ 4. imports
+
+/-- **imports_kept_partial.** A user import that is one of the template's own imports under the same name,
+or that clashes neither with a template import nor with another user import, is in the reserved list, and
+the import line written for it binds the same name; it survives pruning whenever the regenerated file's
+code mentions that name (or it is a `_` / `.` import).
+Full statement (no `hfree` hypothesis) is false: see the two witnesses below. -/
+theorem imports_kept_partial (user : List Import) (hnp : (user.map (·.path)).Nodup) (hnn : (user.map userLocal).Nodup)
+    (i : Import) (hi : i ∈ user) (hpkg : i.pkg ≠ "")
+    (hfree : isAmbient i = true ∨ ((∀ a ∈ ambient, a.path ≠ i.path) ∧ (∀ a ∈ ambient, a.alias ≠ userLocal i)))
+    (used : List String) (hu : used.contains (userLocal i) = true ∨ userLocal i = "_" ∨ userLocal i = ".") :
+    ∃ j ∈ prune used (reserve user), j.path = i.path ∧ printedLocal j = userLocal i := by
+  have keep : ∀ j, printedLocal j = userLocal i → j ∈ reserve user → j ∈ prune used (reserve user) := by
+    intro j hj hmem
+    unfold prune
+    rw [List.mem_filter]
+    refine ⟨hmem, ?_⟩
+    simp only [hj]
+    rcases hu with hu | hu | hu
+    · have : userLocal i ∈ used := by simpa using hu
+      simp [this]
+    · simp [hu]
+    · simp [hu]
+  rcases hfree with hamb | ⟨hfp, hfn⟩
+  · unfold isAmbient at hamb
+    rw [List.any_eq_true] at hamb
+    obtain ⟨a, ha, hpa⟩ := hamb
+    simp only [Bool.and_eq_true, beq_iff_eq] at hpa
+    have hl : printedLocal a = userLocal i := by rw [printedLocal_ambient a ha]; exact hpa.2
+    exact ⟨a, keep a hl (ambient_subset_reserve user a ha), hpa.1, hl⟩
+  · exact ⟨reservedOf i, keep _ (printedLocal_reservedOf i hpkg) (reserve_keeps user hnp hnn i hi hfp hfn), rfl,
+      printedLocal_reservedOf i hpkg⟩
+
+example : (f0.imports.map (·.path)).Nodup ∧ (f0.imports.map userLocal).Nodup ∧
+    (⟨"str", "strings", "strings"⟩ : Import) ∈ f0.imports ∧ isAmbient ⟨"", "context", "context"⟩ = true ∧
+    ((∀ a ∈ ambient, a.path ≠ "strings") ∧ (∀ a ∈ ambient, a.alias ≠ userLocal ⟨"str", "strings", "strings"⟩)) := by decide
+
+/-- F19b: `f "fmt"` — the template has reserved the path `fmt` under the name `fmt`; no import binding `f` is written. -/
+theorem import_alias_on_template_path_witness :
+    ∀ j ∈ reserve [⟨"f", "fmt", "fmt"⟩], ¬ (j.path = "fmt" ∧ printedLocal j = "f") := by decide
+
+/-- F19c: `"github.com/pkg/errors"` — the name `errors` is taken by the template's import of the standard
+library package; the user's path is not imported at all. -/
+theorem import_name_clash_witness :
+    ∀ j ∈ reserve [⟨"", "github.com/pkg/errors", "errors"⟩], j.path ≠ "github.com/pkg/errors" := by decide
+
+/-- What `fix:` d8050c4 repaired: with the old rule of `Import.String` (alias omitted whenever the path ends
+with it) `lib "example.com/mylib"` was written as `"example.com/mylib"`, which binds `mylib`, not `lib`;
+with the rule in the source now it binds `lib`. -/
+theorem import_alias_suffix_witness :
+    omitAliasWith .suffixOnly ⟨"lib", "example.com/mylib", "mylib"⟩ = true ∧
+    printedLocal (reservedOf ⟨"lib", "example.com/mylib", "mylib"⟩) = "lib" := by decide
+
+-- ------------------------------------------------------------------ 5. an add-only change keeps everything
+
+/-- **add_only_keeps_everything** (the structural part of "a package that compiled before compiles after").
+If every non-import declaration of a rendered file is marked copied — the file held only resolver methods
+whose fields are all still in the schema, plus the generated accessors and struct types — nothing is left
+over: no WARNING block is written at all. Together with `body_verbatim`, `named_results_and_doc_kept` and
+`imports_kept_partial` every method, result name and import of the old file is in the new one; the new
+methods are the only additions. (That the result type-checks is sampled through api.Generate's validation.) -/
+theorem add_only_keeps_everything (cfg : Cfg) (p : Pkg) (sch : Schema) (nf : NewFile) (hnf : nf ∈ regenerate cfg p sch)
+    (h : ∀ fi f, findFile p nf.name = some (fi, f) → ∀ j d, f.decls[j]? = some d →
+      d.isImport = true ∨ (fi, j) ∈ copied cfg p sch) :
+    nf.remaining = [] ∧ trailer trailerMode nf.remaining = [] := by
+  unfold regenerate at hnf
+  obtain ⟨name, _, rfl⟩ := List.mem_map.mp hnf
+  have : (mkFile cfg p sch name).remaining = [] := nothing_left_of_all_copied _ p name h
+  rw [this]
+  exact ⟨rfl, rfl⟩
+
+example : ∀ fi f, findFile [{ f0 with decls := [dImport, dTodos] }] "a.resolvers.go" = some (fi, f) →
+    ∀ j d, f.decls[j]? = some d → d.isImport = true ∨ (fi, j) ∈ copied cfgF [{ f0 with decls := [dImport, dTodos] }] sch0 := by
+  intro fi f hf j d hd
+  have : findFile [{ f0 with decls := [dImport, dTodos] }] "a.resolvers.go" = some (0, { f0 with decls := [dImport, dTodos] }) := by decide
+  rw [this] at hf
+  obtain ⟨rfl, rfl⟩ := Prod.mk.inj (Option.some.inj hf)
+  match j, hd with
+  | 0, hd => left; simp at hd; subst hd; decide
+  | 1, hd => right; decide
+  | n + 2, hd => simp at hd
 
 end GqlgenVerif.Props.C19
